@@ -172,6 +172,7 @@ class Ctx:
         e = dict(os.environ)
         e["VERIF_SEED"] = str(self.seed)
         e.setdefault("OMP_NUM_THREADS", "4")
+        e.setdefault("OMP_WAIT_POLICY", "passive")   # idle OpenMP threads sleep instead of spinning: same results, usable on a loaded machine
         if env:
             e.update(env)
         label = label or kind
@@ -251,6 +252,7 @@ class Ctx:
         e = dict(os.environ)
         e["VERIF_SEED"] = str(self.seed)
         e.setdefault("OMP_NUM_THREADS", "4")
+        e.setdefault("OMP_WAIT_POLICY", "passive")   # idle OpenMP threads sleep instead of spinning: same results, usable on a loaded machine
         e["VERIF_UNBUFFERED"] = "1"
         if env:
             e.update(env)
